@@ -7,7 +7,9 @@ from ..core import Case, err_name, HarnessError
 from ..seqcheck import SeqProp
 
 POOL = [-math.inf, -10, -3.5, -1, -0.0, 0, 0.5, 1, 1.0, 2, 2.5, 3, 7, 2 ** 53 - 1, 2 ** 53, float(2 ** 53), 2 ** 53 + 1,
-        float(2 ** 53 + 2), 10 ** 30, 1e300, math.inf]
+        float(2 ** 53 + 2), 10 ** 30, 1e300, math.inf,
+        # ints beyond the range of a float (any conversion to float raises OverflowError; comparison with floats is exact)
+        2 ** 1024, -(2 ** 1024), 10 ** 400, -(10 ** 400)]
 
 
 def frac(x):
@@ -55,8 +57,8 @@ class Prop(SeqProp):
     quick_cases = 500
     thorough_cases = 8000
     rule = ("initialisers {empty, unsorted, with repeats, mapping, pairs} and random op sequences (set: add/discard/remove/"
-            "pop/clear/in; map: store/delete/pop/popitem/setdefault/update/lookup/in) over a pool of 21 ints and floats "
-            "(incl. -0.0/0, 1/1.0, 2**53±1, ±inf) sent to the model as exact order ranks, plus foreign-typed probes; "
+            "pop/clear/in; map: store/delete/pop/popitem/setdefault/update/lookup/in) over a pool of 25 ints and floats "
+            "(incl. -0.0/0, 1/1.0, 2**53±1, ±inf, ints beyond the float range) sent to the model as exact order ranks, plus foreign-typed probes; "
             "state dumped after every op; oracle = builtin set/dict; non-trivial = an initialiser or >=3 mutating ops")
     trusted_base = ["Lean 4.33.0 kernel", "axioms: propext, Classical.choice, Quot.sound (audited per theorem)",
                     "hand-written model Model/Sorted.lean (incl. the bisect_left loop, sorted, dict(pairs)) tied to sorted.py "
